@@ -98,3 +98,7 @@ fn entity_reactor_add_attaches_data_once()
     kani::cover!(dead && present, "dead entity");
     std::mem::forget(captured); std::mem::forget(world);
 }
+
+/// constructors for harnesses of sibling modules (private fields / functions of this module)
+pub fn mk_entity_reactor<'w, T: EntityWorldReactor>(res: &'w mut EntityWorldReactorRes<T>) -> EntityReactor<'w, T> { EntityReactor{ inner: Some(ResMut::m_new(res)) } }
+pub fn mk_local<T: EntityWorldReactor>(data: T::Local) -> EntityWorldLocal<T> { EntityWorldLocal::new(data) }
